@@ -459,10 +459,12 @@ def rule_iter_loops(ctx, R):
                 nx2 = [e for e in segs[-1][1] if e[0] == "call" and cname(e[2]).endswith("next")]
                 last_hdr_exhausted = any(c[2] == "branch" and N(c[0])[0] == "discr" and is_call(N(c[0])[1], "next") and c[1] in ((0,), ("not", 1)) and c[4] >= p.effects.index(nx2[0]) for c in p.conds) if nx2 else False
             is_break = bool(calls_last) and bool(steps_l) and steps_l <= ({1} if not destroy else {1, 3}) and not last_hdr_exhausted
-            R.check(is_break or (entered == len(want) and last_hdr_exhausted), "C06-R3" if not destroy else "C07-R1", "%s|exit#%d" % (qname, pi),
-                    "the query ends only by %s or after every matched archetype was walked" % ("Break" if not destroy else "Break/BreakDestroy"),
-                    "ecs_%s! can return after entering %d of %d archetype loops without a Break (guards: %s): later matched archetypes are never visited" % (
-                        macro, entered, len(want), " & ".join(show(N(c[0]))[:60] for c in p.conds if c[2] == "branch")[-300:]), where_of(f), fn=f.key)
+            # also a C05 matter: a query that can leave early does not act on every archetype it matched
+            for rid_ in (("C06-R3" if not destroy else "C07-R1"), "C05-R9"):
+                R.check(is_break or (entered == len(want) and last_hdr_exhausted), rid_, "%s|exit#%d" % (qname, pi),
+                        "the query ends only by %s or after every matched archetype was walked" % ("Break" if not destroy else "Break/BreakDestroy"),
+                        "ecs_%s! can return after entering %d of %d archetype loops without a Break (guards: %s): later matched archetypes are never visited" % (
+                            macro, entered, len(want), " & ".join(show(N(c[0]))[:60] for c in p.conds if c[2] == "branch")[-300:]), where_of(f), fn=f.key)
         want_fields = ["arch_" + snake(a)[5:] if snake(a).startswith("arch_") else snake(a) for a in want]
         # program order = order of the loop markers on the path that enters the most loops
         longest = max(ps, key=lambda q: len([1 for e in q.effects if e[0] == "loop"]))
